@@ -59,6 +59,11 @@ Resolve(t, n) == IF t[n].canon THEN n ELSE t[n].to
 \* InternStore::ensure for a set of names: unknown names become canonical
 EnsureAll(t, S) == [n \in DOMAIN t \cup S |-> IF n \in DOMAIN t THEN t[n] ELSE [canon |-> TRUE, to |-> n]]
 Canonicals(t) == {n \in DOMAIN t : t[n].canon}
+\* InternStore::resolve, the read-only lookup behind ReportContext::account / ::commodity, the register's
+\* account filter, `-X <commodity>` and the names inside an evaluated expression: a known name answers with
+\* its canonical name, an unknown one with nothing (NoName); it never registers anything
+NoName == "~"
+Lookup(t, n) == IF Known(t, n) THEN Resolve(t, n) ELSE NoName
 
 \* insert_canonical(name) then insert_alias(a, name) for each alias, in order.
 \* Returns [ok, t].  An alias that is already an alias (of anything) is left as is.
@@ -355,6 +360,12 @@ CanonicalOnly ==
         /\ IsCanon(acct, reg[i].posts[j].acct)
         /\ \A c \in DOMAIN reg[i].posts[j].amt : IsCanon(cmdt, c)
   /\ \A i \in 1..Len(prices) : IsCanon(cmdt, prices[i].xc) /\ IsCanon(cmdt, prices[i].yc)
+
+\* C12 on the query side: whatever name a query is asked with, it is answered with a canonical name, and an
+\* alias answers exactly as its canonical name does
+LookupCanonical ==
+  /\ \A n \in DOMAIN acct : IsCanon(acct, Lookup(acct, n)) /\ Lookup(acct, Lookup(acct, n)) = Lookup(acct, n)
+  /\ \A n \in DOMAIN cmdt : IsCanon(cmdt, Lookup(cmdt, n)) /\ Lookup(cmdt, Lookup(cmdt, n)) = Lookup(cmdt, n)
 
 \* C06 at design level: every input has a defined outcome
 NoStuck == AtCommit => ENABLED CommitOrReject
